@@ -966,7 +966,26 @@ func (x *Exec) step(f *Frame, st *State, ins ssa.Instruction) bool {
 		}
 		f.regs[in] = &PtrVal{Obj: o}
 	case *ssa.Store:
-		x.store(st, x.value(f, st, in.Addr), x.value(f, st, in.Val))
+		sv := x.value(f, st, in.Val)
+		// a slice literal of representable elements stored into a variable is kept as the list of its elements
+		if gs, ok := sv.(*GoSlice); ok {
+			if rt := SortOf(in.Val.Type()); rt != nil && isSliceSort(rt) {
+				cur := ZeroOf(rt)
+				for _, e := range gs.Elems {
+					et, ok := e.(*Term)
+					if !ok || et.Sort != rt.Fields[1].Sort.Elem {
+						cur = nil
+						break
+					}
+					ln := SelField(cur, 0)
+					cur = Con(rt, Add(ln, IntLit(1)), Store(SelField(cur, 1), ln, et))
+				}
+				if cur != nil {
+					sv = cur
+				}
+			}
+		}
+		x.store(st, x.value(f, st, in.Addr), sv)
 	case *ssa.UnOp:
 		v := x.value(f, st, in.X)
 		switch in.Op {
